@@ -288,7 +288,8 @@ def build(tier):
             'the recursion (slice i0 of the input integrated into slice i0 of the output, then output row i0-1 added to output row i0, whole rows, i0 >= 1 only, in that order); integral(): '
             'an empty tensor is left alone, a non-empty one is integrated exactly once',
             'algorithm.h remove_if(op, rank-1 tensor) (CBMC, the real loops under loop contracts, real array of symbolic length): every index of [0, size) is examined, in order, nothing outside; '
-            'returns the number of kept elements; the ORIGINAL value of every kept element g ends at position #(kept before g) < ret (compaction in order); detail::size, detail::copy (rank 1)',
+            'returns the number of kept elements; the ORIGINAL value of every kept element g ends at position #(kept before g) < ret (compaction in order); detail::size, detail::copy (rank 1); '
+            'the same contract on the (rank 1, rank 2, rank 1) instantiation that solver/bundle.h uses (expanded pack, one target per tracked tensor; rows of the rank-2 tensor are opaque tokens)',
             'range.h: tensor_range_t(begin, end), make_range, begin, end, size (== end - begin, no overflow for ends in (-2^62, 2^62)), valid(n) <=> 0 <= begin < end <= n',
             'pointer level (CBMC, ranks 1..3): in tvector / ttensor / tmatrix / tslice the real expression ptr + offset0(..) stays inside the array object of size() doubles and the mapped range '
             '[pointer, pointer + extent) is addressable memory of that object; operator()(index) returns data() + index inside the object. The offsets\' contracts are ASSUMED there exactly as '
@@ -298,7 +299,7 @@ def build(tier):
             'right (all other tslice obligations are proved for the whole range through the end-inclusive contract of offset0)'],
         'not_decided': ['storage conversions / copy semantics between owning and mapping storages (C++ object semantics)', 'summed-area table VALUES for ranks >= 2 and for floating-point outputs',
                         'Eigen Map construction itself (map_vector / map_matrix / map_tensor are constructors: their result is modelled as (pointer, extent))',
-                        'remove_if on several tensors at once / on rank >= 2 tensors (detail::copy then assigns tensor_map_t temporaries: object semantics); the loops are the same template text',
+                        'detail::copy on rank >= 2 tensors (assigns tensor_map_t temporaries: object semantics) -- in the three-tensor remove_if target it is an ASSUMED contract (row idst := row isrc, rows in range checked)',
                         'make_dims / cat_dims (aggregate initialisation of std::array)', 'tensor.h numeric helpers (zero, full, random, min, max, ... : Eigen expressions over vector())'],
         'assumptions': ['tensor invariant: every extent >= 0 and every suffix product of the extents <= 2^62 (precondition, reported)',
                         'template arguments of calls inside templates are read from the source text and evaluated under the instantiation bindings',
